@@ -375,7 +375,12 @@ LEVEL_TEXT = ('Coq theorems over an executable model of TimeoutManager (every hi
               'single-descriptor abstract machine, under four guards stated as boolean functions: callbacks act only '
               'on their own descriptor, no delete_on_close descriptor, no write registration on a pipe read end, no '
               'read/close callback doing remove-read + remove-write + add-write (proposed finding '
-              'C16-epoll-write-skipped-after-reregister); two bounded exhaustive theorems remain as sanity checks.  Both '
+              'C16-epoll-write-skipped-after-reregister), and per descriptor under the weaker guard that no OTHER '
+              'descriptor aims an action at it (c16_backends_agree_per_descriptor); the close-reported theorem is also '
+              'stated on the registration history (invariant from the initial state, non delete_on_close descriptors); a '
+              'whole SelectServer iteration (loop callbacks, timers, sleep or descriptor callbacks, timers) is a history of '
+              'the timer model and serves every due timer (c16_selectserver_iteration); constants are regenerated into '
+              'Gen.v and pinned (c16_consts); two bounded exhaustive theorems remain as sanity checks.  Both '
               'models are tied to the C++ by a differential correspondence check (real classes, virtual clock, '
               'interposed Event allocator, real pipes/socketpairs on both back-ends).')
 LEVEL_NOTE = ('Trusted: Coq kernel, extraction (ExtrOcamlBasic), OCaml/C++ glue, generator coverage of the '
